@@ -63,6 +63,14 @@ func checkStep(c StepCase) (v ev.Verdict) {
 	var stride *core.Stride
 	var serr error
 	st := &core.State{NodeName: c.Node, Bs: match.Bindings(jsongen.CopyMap(c.Bs))}
+	// observe the order in which native guards are consulted
+	type call struct {
+		p    *sm.Prog
+		kind string
+	}
+	var calls []call
+	sm.OnNativeExec = func(p *sm.Prog, kind string) { calls = append(calls, call{p, kind}) }
+	defer func() { sm.OnNativeExec = nil }()
 	if p := trap(func() { stride, serr = spec.Step(context.Background(), st, pending, nil, nil) }); p != "" {
 		// crashes are C07's / C18's subject; counted, not judged here
 		v.Skip, v.SkipReason = true, "panic(C07/C18)"
@@ -74,6 +82,31 @@ func checkStep(c StepCase) (v ev.Verdict) {
 	if !ok {
 		v.Failf("step at %q gave %s; the documented rule allows %s", c.Node, got.Key(), strings.Join(keys, " || "))
 		return
+	}
+	// "the first branch whose pattern matches and whose guard returns
+	// bindings decides": once a guard has accepted a candidate, neither it
+	// nor any later guard is consulted again in this step
+	guards := map[*sm.Prog]bool{}
+	for _, n := range c.Spec.Nodes {
+		for i := range n.Branches {
+			if n.Branches[i].Guard != nil && n.Branches[i].GuardNative {
+				guards[n.Branches[i].Guard] = true
+			}
+		}
+	}
+	accepted := false
+	for _, cl := range calls {
+		if !guards[cl.p] {
+			continue
+		}
+		if accepted {
+			v.Failf("a guard was consulted again after a guard had already accepted a candidate in this step (calls: %d)", len(calls))
+			return
+		}
+		if cl.kind == "ok" {
+			accepted = true
+			v.Class("native-guard-accepted")
+		}
 	}
 	route := allowed[0].Route
 	v.Class("route:" + strings.Split(route, ":")[0])
